@@ -233,6 +233,22 @@ func exploreBlock(c *xs.Ctx, r *xs.Result, hi int, rec *prodRec, k *pooled, only
 		}
 		// accepted: something entered the pool
 		r.Count("variants_accepted", 1)
+		// a block's hash pins down its stored bytes: whatever was stored must hash to the hash it is stored under
+		hashMismatch := false
+		for key, val := range after {
+			if _, had := clean[key]; had {
+				continue
+			}
+			sb, derr := nom.DeserializeAccountBlock(val)
+			if derr != nil || sb.ComputeHash() != sb.Hash {
+				r.Violate("C13:"+class+":"+rootGroup(class, v)+"-altered:stored-bytes-do-not-hash-to-stored-hash", where+fmt.Sprintf(": the follower accepted the block and stores, under hash %v (%s), bytes whose hash is different (stored data %x, delivered data %x)", V.Hash, key, sbData(sb), V.Data), rep)
+				hashMismatch = true
+			}
+		}
+		if hashMismatch {
+			fresh()
+			continue
+		}
 		if !sameHash || v.Flavor == "resign" {
 			// a different block (other hash) signed by the key holder, or one whose hash moved: not a second variant of B.
 			// What matters here is only the call-data question: is non-canonical call data stored?
@@ -523,4 +539,11 @@ func callData(r *xs.Result, orig, V *nom.AccountBlock, v variant, outcome string
 	}
 	r.Add("call_data_forms", name+":"+strings.TrimSuffix(strings.TrimPrefix(v.Name, "Data:abi:"), "/resign"))
 	r.Add("call_data", fmt.Sprintf("%s:%s:%s => %s", name, strings.TrimPrefix(v.Field, "Data-abi-"), who, outcome))
+}
+
+func sbData(b *nom.AccountBlock) []byte {
+	if b == nil {
+		return nil
+	}
+	return b.Data
 }
